@@ -4,6 +4,7 @@ package main
 // writer (OB).  See DESIGN.md §2.1, §2.4.
 
 import (
+	"strconv"
 	"bufio"
 	"encoding/json"
 	"fmt"
@@ -46,6 +47,7 @@ type Ob struct {
 	Reason    string   `json:"table_reason,omitempty"`
 	Known     string   `json:"known_finding,omitempty"`
 	Trivial   bool     `json:"-"`
+	tok       token.Pos
 }
 
 type TableRow struct {
@@ -365,7 +367,7 @@ func (c *Ctx) addp(rule, fn, construct, pos string, st Status, detail string) *O
 	if n := c.keyCount[base]; n > 1 {
 		key = fmt.Sprintf("%s#%d", base, n)
 	}
-	o := &Ob{Rule: rule, Fn: fn, Construct: construct, Key: key, Pos: pos, Status: st, Detail: detail}
+	o := &Ob{Rule: rule, Fn: fn, Construct: construct, Key: key, Pos: pos, Status: st, Detail: detail, tok: c.posTok}
 	if st == StViolation || st == StUndecided {
 		if row, ok := c.table[key]; ok && row.Verdict == "exempt" {
 			row.used = true
@@ -481,6 +483,100 @@ func (c *Ctx) loadKnown() {
 
 // finish applies minimum instance counts, matches known findings, writes the
 // evidence and replay files, prints the verdict lines and returns the exit code.
+// rematchMoved: table rows and recorded findings are keyed by function and
+// construct. When code is moved to another function (a helper is extracted, a
+// function is split or renamed) the construct is the same construct, under a
+// new key. An open obligation that has no row of its own is matched with a row
+// (or a recorded finding) of the same rule and the same construct text that
+// nothing used in this run -- its old key no longer exists in the program --
+// provided the row's machine-checked anchor, if it has one, holds at the new
+// place. Each row is used once; the match is noted in the evidence.
+func (c *Ctx) rematchMoved() {
+	strip := func(k string) string {
+		if i := strings.LastIndex(k, "#"); i > 0 {
+			if _, err := strconv.Atoi(k[i+1:]); err == nil {
+				return k[:i]
+			}
+		}
+		return k
+	}
+	liveKeys := map[string]bool{}
+	for _, o := range c.obs {
+		liveKeys[o.Key] = true
+	}
+	var freeRows []string
+	for k, row := range c.table {
+		if !row.used && row.Verdict == "exempt" && !liveKeys[k] {
+			freeRows = append(freeRows, k)
+		}
+	}
+	sort.Strings(freeRows)
+	usedKnown := map[string]bool{}
+	for _, o := range c.obs {
+		usedKnown[o.Key] = true
+	}
+	var moved []string
+	for _, o := range c.obs {
+		if o.Status != StViolation && o.Status != StUndecided {
+			continue
+		}
+		if _, has := c.table[o.Key]; has {
+			continue // it has a row of its own (whose anchor failed)
+		}
+		isKnown := false
+		for i := range c.known.Findings {
+			if c.known.Findings[i].Property == c.Prop && c.known.Findings[i].Key == o.Key {
+				isKnown = true
+			}
+		}
+		if isKnown {
+			continue
+		}
+		want := o.Rule + "|" + strip(o.Construct)
+		matched := false
+		for i, k := range freeRows {
+			if k == "" {
+				continue
+			}
+			row := c.table[k]
+			if row.Rule+"|"+strip(row.Construct) != want {
+				continue
+			}
+			if holds, _ := c.anchorHolds(row, o, o.tok); !holds {
+				continue
+			}
+			row.used = true
+			freeRows[i] = ""
+			o.Status = StExempt
+			o.Reason = row.Reason + " [row written for " + row.Fn + "; the construct is now in " + o.Fn + "]"
+			moved = append(moved, k+" -> "+o.Key)
+			matched = true
+			break
+		}
+		if matched {
+			continue
+		}
+		// a recorded finding whose function no longer carries it
+		for i := range c.known.Findings {
+			kf := &c.known.Findings[i]
+			if kf.Property != c.Prop || usedKnown[kf.Key] {
+				continue
+			}
+			parts := strings.SplitN(kf.Key, "|", 3)
+			if len(parts) != 3 || parts[0]+"|"+strip(parts[2]) != want {
+				continue
+			}
+			usedKnown[kf.Key] = true
+			moved = append(moved, kf.Key+" -> "+o.Key)
+			o.Key = kf.Key // reported as the recorded finding it is
+			break
+		}
+	}
+	if len(moved) > 0 {
+		c.note("rows_matched_after_a_move", moved)
+	}
+}
+
 func (c *Ctx) finish() int {
 	// instance minima: a rule that matches too little passes vacuously forever.
 	count := map[string]int{}
@@ -498,6 +594,7 @@ func (c *Ctx) finish() int {
 				fmt.Sprintf("rule matched %d instances, fewer than the %d confirmed by reading; the code it was anchored in has moved", count[r], c.mins[r]))
 		}
 	}
+	c.rematchMoved()
 	// stale table rows are reported in the thorough tier only as a note
 	stale := []string{}
 	for k, row := range c.table {
